@@ -8,7 +8,7 @@ W=/tmp/seedtry/$id.$$
 mkdir -p /tmp/seedtry
 git -C /repo worktree add -q --detach $W HEAD || exit 2
 git -C $W apply "$p" || { echo "patch does not apply"; git -C /repo worktree remove --force $W; exit 2; }
-VERIF_REPO=$W VERIF_OUT=$W.out /verif/bin/symgo check "$id" "$tier" > /tmp/seedtry/$id.log 2>&1; rc=$?
+VERIF_REPO=$W VERIF_OUT=$W.out /verif/bin/symgo check "$id" "$tier" > /tmp/seedtry/$id.$$.log 2>&1; rc=$?
 git -C /repo worktree remove --force $W; rm -rf $W.out
-grep -E "^(VIOLATION|INCONCLUSIVE|OK)" /tmp/seedtry/$id.log | cut -c1-300 | head -6
+grep -E "^(VIOLATION|INCONCLUSIVE|OK)" /tmp/seedtry/$id.$$.log | cut -c1-300 | head -6
 echo "exit=$rc"
